@@ -248,11 +248,22 @@ class ClsSource(_ClsBase):
 
 
 class ClsSourceTruthyClose(ClsSource):
-    """... whose aclose() returns a truthy value (nothing may be read into that)"""
+    """... whose aclose() returns a truthy value, which is falsy itself (a lazily loaded page that has no length yet)
+    and which compares equal to every other iterator of its kind (nothing may be read into any of that: an iterator
+    is told from another by identity, and is iterated whatever its truth value)"""
 
     async def aclose(self):
         await super().aclose()
         return True
+
+    def __bool__(self):
+        return False
+
+    def __eq__(self, other):
+        return isinstance(other, ClsSourceTruthyClose)
+
+    def __hash__(self):
+        return 7
 
 
 class CloseFailure(Exception):
@@ -560,6 +571,9 @@ def make_callable(flavour, rec: Recorder, name, sem=None):
             def __bool__(self):         # e.g. a rule set that is callable and, being empty, falsy
                 return flavour == "obj"
 
+        if flavour == "objfalsy":       # ... and, being mutable and comparable, unhashable (a non-frozen dataclass with __call__)
+            CallObj.__eq__ = lambda self, other: type(other) is type(self)
+            CallObj.__hash__ = None
         return CallObj()
     raise ValueError(flavour)
 
